@@ -304,6 +304,17 @@ func (c *Case) build() (src, want string, panics bool) {
 			out("fresh", round, fb)
 		}
 	}
+	// literals written next to each other with + denote the concatenation of what each denotes alone, whatever their
+	// kinds (interpreted next to raw)
+	stmt(`fmt.Println("litcat", []byte(%s + %s), len(%s + %s + %s))`, c.A.Lit, c.B.Lit, c.C.Lit, c.A.Lit, c.B.Lit)
+	out("litcat", []byte(A+B), len(C+A+B))
+	// string(b) of a byte value is the UTF-8 encoding of the code point b, like string(rune(b))
+	for n, i := range c.Idx {
+		if n < 2 {
+			stmt(`fmt.Println("strbyte", []byte(string(a[%d])), len(string(a[i%d])))`, i, n)
+			out("strbyte", []byte(string(rune(A[i]))), len(string(rune(A[i]))))
+		}
+	}
 	// copy from a string moves bytes
 	stmt("cp := []byte(b)")
 	stmt("ncp := copy(cp, a)")
